@@ -114,6 +114,35 @@ func (f *frame) lookupLocalFiltered(name string, at *ssa.BasicBlock, skip func(*
 			best, bestDepth, bestIdx = d, dp, idx
 		}
 	}
+	// a variable merged at a join has no DebugRef there: the φ-node (go/ssa records the variable's
+	// name as its comment) is the reaching definition if it lies deeper on the dominator path
+	var bestPhi *ssa.Phi
+	for b := at; b != nil; b = b.Idom() {
+		if skip != nil && skip(b) {
+			continue
+		}
+		dp := depth(b)
+		if dp <= bestDepth {
+			break
+		}
+		for _, in := range b.Instrs {
+			p, ok := in.(*ssa.Phi)
+			if !ok {
+				break
+			}
+			if p.Comment == name {
+				if _, have := f.vals[p]; have {
+					bestPhi = p
+				}
+			}
+		}
+		if bestPhi != nil {
+			break
+		}
+	}
+	if bestPhi != nil {
+		return bestPhi, true
+	}
 	if best == nil {
 		return nil, false
 	}
